@@ -378,6 +378,7 @@ template <typename TKey, typename TValue, Reader<TKey> ReadKey, Reader<TValue> R
 inline void ReadMap(CodedInputStream& stream, std::unordered_map<TKey, TValue>& value) {
   uint64_t size;
   ReadInteger(stream, size);
+  value.clear();
 
   for (size_t i = 0; i < size; i++) {
     TKey k;
